@@ -4,8 +4,13 @@ Also the reversed fix: commits (fixes/*.patch) against the properties they were 
 import os, json, subprocess, glob, re, sys
 ROOT = os.path.dirname(os.path.dirname(os.path.abspath(__file__)))
 res = []
+# fixes that were corrected by a later fix on the same lines: the later one is reversed first
+SUPERSEDED = {"3a6cdc6": ["e7d7ff7"]}
 def run(patch, props, rev=False):
-    out = subprocess.run(["python3", os.path.join(ROOT, "bin", "seedtest.py")] + (["-R"] if rev else []) + [patch] + props, capture_output=True, text=True).stdout
+    first = []
+    for later in SUPERSEDED.get(os.path.basename(patch).split(".")[0], []) if rev else []:
+        first += ["--first", os.path.join(ROOT, "fixes", later + ".patch")]
+    out = subprocess.run(["python3", os.path.join(ROOT, "bin", "seedtest.py")] + (["-R"] if rev else []) + first + [patch] + props, capture_output=True, text=True).stdout
     r = {}
     for m in re.finditer(r"== (\S+?)(?: \(reversed\))? (C\d+) -> exit (\d)", out):
         r[m.group(2)] = int(m.group(3))
